@@ -44,6 +44,10 @@
 (*           (of class c: created if need be, its behaviour set to v,      *)
 (*           dumped): it changes nothing of the object under observation,  *)
 (*           whose next dump must still follow its own records and option. *)
+(*   SetBehFails                                                           *)
+(*           an ILLEGAL value assigned to size_field_behavior is rejected  *)
+(*           (the caller catches the exception): the option keeps its      *)
+(*           value, every later dump is what it would have been.           *)
 (*                                                                         *)
 (* The width computation needs the records of a field only where the width *)
 (* depends on them (PdiffIndex; Release with dak).  The design iterates    *)
@@ -68,9 +72,13 @@
 (* keeps size_field_behavior in one place for all Release objects (the     *)
 (* last value set on ANY object wins, fresh objects do not start at the    *)
 (* default): WidthTable is violated (MC_MultiValued_neg_classopt.cfg).     *)
+(* StoreBeforeValidate = TRUE lets a rejected assignment leave the illegal *)
+(* value behind: the next dump of a paragraph with a structured field      *)
+(* raises, DumpTotal is violated (MC_MultiValued_neg_storefirst.cfg).      *)
 (* All were tried; props/c12.py re-runs                                    *)
-(* IterateAllFields, CacheWidths, SharedEqualRecords and ClassLevelOption  *)
-(* in every check and the other two configurations in the thorough tier,   *)
+(* IterateAllFields and one of CacheWidths, SharedEqualRecords,            *)
+(* ClassLevelOption, StoreBeforeValidate in every quick check, all of them *)
+(* and the other two configurations in the thorough tier,                  *)
 (* and fails (exit 2) if TLC stops reporting the violation.                *)
 (*                                                                         *)
 (* Size dimension (notes/SIZE_STRESS.md): the model is abstract in the     *)
@@ -128,6 +136,7 @@ CONSTANTS Tables,            \* class -> <<[f |-> field name, subs |-> <<sub-fie
           CacheWidths,       \* negative control: the width table of the first dump is kept until a field is assigned/deleted
           SharedEqualRecords,\* negative control: records parsed from identical lines are one shared object
           ClassLevelOption,  \* negative control: size_field_behavior is shared by all Release objects
+          StoreBeforeValidate, \* negative control: a rejected size_field_behavior value is stored nevertheless
           Emit,              \* print CASE lines (and the tables)
           EmitOff            \* rotates the sample of the modes with emitmod > 1 (set from the seed)
 
@@ -142,7 +151,7 @@ VARIABLES mode,              \* the enumeration mode: [name, uniform, maxf, heav
           widths,            \* output of Widths: field index -> width of the size column (0: not padded)
           text,              \* output of Dump: field index -> [form, lines]
           parsed,            \* result of Parse: field index -> [form, recs of <<[n |-> name, t |-> token]>>]
-          res,               \* outcome of Dump: "ok" | "KeyError"
+          res,               \* outcome of Dump: "ok" | "KeyError" | "ValueError"
           nmut,              \* number of mutations applied to the object so far
           hist,              \* modes with maxmut > 0: the history (dumps with their expected layout, mutations)
           cache              \* [valid, w]: remembered width table (always NoCache unless CacheWidths)
@@ -209,7 +218,8 @@ MUnspecified(c, b, p) == c = "Release" /\ b = Dak /\ \E f \in DOMAIN p : p[f].fo
 
 \* does the width computation have to look at the records of the fields it iterates over?
 MTouches(c, b)  == c = "PdiffIndex" \/ (c = "Release" /\ b = Dak)
-MDumpRes(c, b, present, iter) == IF MTouches(c, b) /\ ~(iter \subseteq present) THEN "KeyError" ELSE "ok"
+MDumpRes(c, b, present, iter) == IF c = "Release" /\ b \notin {Apt, Dak} /\ present # {} THEN "ValueError"   \* (only reachable with StoreBeforeValidate)
+                                 ELSE IF MTouches(c, b) /\ ~(iter \subseteq present) THEN "KeyError" ELSE "ok"
 
 MLine(rec, subs, w) ==
     [i \in 1..Len(subs) |->
@@ -422,6 +432,11 @@ SetBeh(v) == /\ cls = "Release" /\ v \in {Apt, Dak}
              /\ opt' = [beh |-> v, set |-> TRUE, shared |-> IF ClassLevelOption THEN v ELSE opt.shared]
              /\ cache' = NoCache /\ UNCHANGED para
              /\ AfterMut(<<"setbeh", v>>)
+\* obj.size_field_behavior = <an illegal value> raises (and the caller goes on): nothing changes
+SetBehFails == /\ cls = "Release"
+               /\ opt' = (IF StoreBeforeValidate THEN [opt EXCEPT !.beh = "illegal"] ELSE opt)
+               /\ UNCHANGED <<para, cache>>
+               /\ AfterMut(<<"setbehfails">>)
 \* a step of ANOTHER live object of class c (created if need be; v # "-": its size_field_behavior
 \* is set to v; it is dumped): nothing of this object changes
 OtherSet(c, v) == /\ opt' = [opt EXCEPT !.shared = IF ClassLevelOption /\ c = "Release" /\ v # "-" THEN v ELSE @]
@@ -446,6 +461,7 @@ Mutate == /\ phase = "parsed" /\ nmut < mode.maxmut
                 /\ \E v \in {Apt, Dak} : (v # beh \/ ~opt.set) /\ SetBeh(v)
              \/ /\ "other" \in Kinds /\ DOMAIN para # {}
                 /\ \E ov \in ModeDef.others : OtherSet(ov[1], ov[2])
+             \/ "setbehfails" \in Kinds /\ DOMAIN para # {} /\ SetBehFails
 \* another object may also have been configured BEFORE this one is created
 PreOther == /\ phase = "build" /\ para = <<>> /\ hist = <<>> /\ nmut < mode.maxmut
             /\ "other" \in Kinds
@@ -467,7 +483,7 @@ ASSUME Emit => PrintT(<<"TABLES", ToJson(Tables)>>)
 Heavy  == mode.heavy
 Dumped == phase = "dumped" /\ res = "ok"
 
-TypeOK == /\ phase \in {"build", "widths", "dumped", "parsed"} /\ res \in {"ok", "KeyError"}
+TypeOK == /\ phase \in {"build", "widths", "dumped", "parsed"} /\ res \in {"ok", "KeyError", "ValueError"}
           /\ DOMAIN para \subseteq 1..NFields
           /\ phase = "build" => \A f \in DOMAIN para : MEntryOK(Subs(f), para[f])
           /\ (phase # "dumped" \/ res # "ok") => text = <<>>
@@ -476,8 +492,8 @@ TypeOK == /\ phase \in {"build", "widths", "dumped", "parsed"} /\ res \in {"ok",
           /\ phase # "parsed" => parsed = <<>>
           /\ nmut <= mode.maxmut
           /\ ~CacheWidths => cache = NoCache
-          /\ opt.beh \in (IF cls = "Release" THEN {Apt, Dak} ELSE {"-"})
-          /\ ~opt.set => opt.beh = start.beh          \* an untouched Release is at the documented default
+          /\ ~StoreBeforeValidate => opt.beh \in (IF cls = "Release" THEN {Apt, Dak} ELSE {"-"})
+          /\ (~StoreBeforeValidate /\ ~opt.set) => opt.beh = start.beh   \* an untouched Release is at the documented default
           /\ ~start.set /\ cls = "Release" => start.beh = Apt
 
 \* dump() is defined for EVERY subset of the structured fields
@@ -507,8 +523,8 @@ EditIsLocal == [][(Len(hist') = Len(hist) + 1 /\ hist'[Len(hist')][1] = "setsize
                     /\ \A g \in DOMAIN para \ {e[2]} : para'[g] = para[g]
                     /\ Len(para'[e[2]].recs) = Len(para[e[2]].recs)
                     /\ \A q \in 1..Len(para[e[2]].recs) : q # e[3] => para'[e[2]].recs[q] = para[e[2]].recs[q]]_vars
-\* a step of another object changes nothing of this one
-OtherIsOther == [][(Len(hist') = Len(hist) + 1 /\ hist'[Len(hist')][1] = "other") =>
+\* a step of another object, or a rejected assignment, changes nothing of this one
+OtherIsOther == [][(Len(hist') = Len(hist) + 1 /\ hist'[Len(hist')][1] \in {"other", "setbehfails"}) =>
                      (para' = para /\ opt'.beh = opt.beh /\ opt'.set = opt.set)]_vars
 
 \* every parsed record carries exactly the documented sub-field names, in the documented order
@@ -587,8 +603,8 @@ LiveConfigs  == {<<"Release", Apt>>, <<"Release", Dak>>, <<"Release", "default">
 \* the other live objects: <<class, value assigned to its size_field_behavior ("-": none)>>
 LiveOthers   == {<<"Release", Apt>>, <<"Release", Dak>>, <<"PdiffIndex", "-">>, <<"Changes", "-">>}
 LiveOthersT  == LiveOthers \cup {<<"Release", "-">>, <<"Dsc", "-">>}
-LiveKinds    == {"setbeh", "other"}
-LiveKindsT   == {"setbeh", "other", "setsize"}
+LiveKinds    == {"setbeh", "other", "setbehfails"}
+LiveKindsT   == {"setbeh", "other", "setbehfails", "setsize"}
 
 \* quick tier (two TLC runs in parallel)
 ModesQuick ==
@@ -619,5 +635,6 @@ ModesNegIterateOk == { Mode("neg", NoLookupConfigs, ShapesSubsetsQuick, TRUE, 4,
 ModesNegSplit     == { Mode("neg", AllConfigs,      ShapesSubsetsQuick, TRUE, 1, TRUE, 1) }
 ModesNegCache     == { HMode("neg", AllConfigs,     ShapesHist, FALSE, 1, TRUE, 1, 1, {7}, 2) }
 ModesNegShared    == { XMode("neg", AliasConfigs,   ShapesAlias, FALSE, 1, TRUE, 1, 1, {7}, 1, {"setsize"}, {"parsed", "built"}, {}) }
+ModesNegStoreFirst == { XMode("neg", {<<"Release", Dak>>, <<"Release", "default">>}, ShapesLive, FALSE, 1, TRUE, 1, 1, {7}, 1, {"setbehfails"}, {"built"}, {}) }
 ModesNegClassOpt  == { XMode("neg", LiveConfigs,    ShapesLive,  FALSE, 1, TRUE, 1, 2, {7}, 1, LiveKinds, {"built"}, LiveOthers) }
 =============================================================================
